@@ -136,6 +136,18 @@ def check_c16(prop, tier, seed, work, t0):
     return done(required=required, extra=extra)
 
 
+def asan_results(tier, seed, work, trials):
+    """sanitizer-only slice for C18: asan + asan512 builds of the same monitor"""
+    entries, msgs = g16.consistency(vfw.REPO)
+    if msgs:
+        raise vfw.Inconclusive("C16 overload table differs from the header: " + "; ".join(msgs[:5]))
+    thunks = g16.emit(entries, work.path("gen16"), N_THUNK_TUS)
+    flavours = ["asan", "asan512"] if vfw.have_avx512() else ["asan"]
+    jobs = [{"name": "wrappers16-" + fl, "flavour": fl, "srcs": [H("wrappers16.cpp")] + thunks, "libsrcs": LIBSRCS,
+             "defs": ["-I" + os.path.join(VERIF, "harness")]} for fl in flavours]
+    return jobs, [("wrappers16-" + fl, "C16", seed + SEED_OFFSET[fl], ["--trials", str(trials)], "w16-" + fl, NCPU, None) for fl in flavours]
+
+
 def register(reg):
     reg["C16"] = check_c16
 
